@@ -7,11 +7,13 @@ import (
 	"strconv"
 
 	zzv "github.com/issue9/mux/v9/internal/zzverif"
+	"github.com/issue9/mux/v9/types"
 )
 
 // ---- C11 / C12: CORS ----
 
-var zzOrigins = [][]string{nil, {"*"}, {"o1"}, {"o1", "o2"}, {"o1", "*"}}
+// (the second origin of list 3 is longer than a machine word has bits)
+var zzOrigins = [][]string{nil, {"*"}, {"o1"}, {"o1", "https://preview-0123456789abcdef0123456789abcdef.deployments.example.org"}, {"o1", "*"}}
 var zzAllowHdrs = [][]string{nil, {"*"}, {"X-A"}, {"X-A", "Content-Type"}, {"X-A", "b-c"}, {"X-Id", "X-A"}}
 
 // requested header lists for the allowed list {"X-Id", "X-A"}: names that differ from an allowed
@@ -69,9 +71,27 @@ func zzVaryHas(h http.Header, name string) bool {
 	return false
 }
 
+var zzCORSHeaders = []string{"Access-Control-Allow-Origin", "Access-Control-Allow-Credentials", "Access-Control-Expose-Headers",
+	"Access-Control-Allow-Methods", "Access-Control-Allow-Headers", "Access-Control-Max-Age", "Vary"}
+
+// zzCallCORS: handler 9 adds a value of its own to every CORS response header (what it is given
+// in w.Header() is its own to change; it must not show in any later response).
+func zzCallCORS(w http.ResponseWriter, r *http.Request, rt types.Route, h *hnd) {
+	if h.id == 9 {
+		for _, k := range zzCORSHeaders {
+			w.Header().Add(k, "X-Own")
+		}
+	}
+	zzCall(w, r, rt, h)
+}
+
 // ZZC11(n): n = originsIdx*1000 + allowHdrIdx*100 + max length of the free Access-Control-Request-Headers value.
 func ZZC11(n int) {
-	mode := n / 10000 // 0: both properties, 1: C11 only, 2: C12 only
+	mode := n / 10000 // 0: both properties, 1: C11 only, 2: C12 only, 3: C12 after a request whose handler added to the CORS headers
+	prime := mode == 3
+	if prime {
+		mode = 2
+	}
 	n %= 10000
 	oi := n / 1000
 	var origins, allowH []string
@@ -114,6 +134,24 @@ func ZZC11(n int) {
 	}
 	r.Handle("/a", &hnd{id: 1}, nil, "GET", "DELETE")
 	r.Handle("/", &hnd{id: 2}, nil, "GET", "DELETE")
+	if prime {
+		pr := NewRouter[*hnd]("r", zzCallCORS, &hnd{id: id404}, zzB405, zzBOpt, WithCORS(origins, allowH, exposed, maxAge, cred))
+		pr.Handle("/a", &hnd{id: 1}, nil, "GET", "DELETE")
+		pr.Handle("/", &hnd{id: 2}, nil, "GET", "DELETE")
+		pr.Handle("/own", &hnd{id: 9}, nil, "GET")
+		r = pr
+		preq := zzReq("GET", "/own")
+		if len(origins) > 0 {
+			preq.Header.Set("Origin", origins[0])
+		}
+		zzServe(r, preq)
+		ppre := zzReq("OPTIONS", "/own")
+		if len(origins) > 0 {
+			ppre.Header.Set("Origin", origins[0])
+		}
+		ppre.Header.Set("Access-Control-Request-Method", "GET")
+		zzServe(r, ppre)
+	}
 
 	// the request
 	// (the empty path selects the root node like "*" does, but is not exempt from preflight handling)
@@ -121,10 +159,18 @@ func ZZC11(n int) {
 	method := []string{"GET", "HEAD", "POST", "OPTIONS", "OPTIONS", "GET", "", "OPTIONS", "GET", "OPTIONS"}[rq]
 	path := []string{"/a", "/a", "/a", "/a", "*", "/zz", "/a", "/", "/", ""}[rq]
 	req := zzReq(method, path)
-	hasOrigin := zzv.Choice("hasorigin", 2) == 1
+	norig := 2
+	if len(origins) == 2 && !anyOrigin {
+		norig = 3 // ... or exactly the last configured origin
+	}
+	oc := zzv.Choice("hasorigin", norig)
+	hasOrigin := oc >= 1
 	origin := ""
 	if hasOrigin {
 		origin = zzv.Bytes("origin", 2)
+		if oc == 2 {
+			origin = origins[len(origins)-1]
+		}
 		req.Header.Set("Origin", origin)
 	}
 	acrm := ""
@@ -219,25 +265,25 @@ func ZZC11(n int) {
 	// ---- C11: never more than configured ----
 	credHdr := zzHdr(h, "Access-Control-Allow-Credentials")
 	if mode != 2 {
-	zzv.Assert(acao == "" || (acao == "*;" && anyOrigin) || (acao == origin+";" && originListed && !anyOrigin), "C11:allow-origin-neither-star-nor-a-listed-origin")
-	zzv.Assert(credHdr == "" || (credHdr == "true;" && cred && acao == origin+";" && originListed), "C11:credentials-without-an-echoed-listed-origin")
-	if deny {
-		zzv.Cover("deny")
-		zzv.Assert(acao == "", "C11:allow-origin-without-configured-origins")
-	}
-	if !served {
-		zzv.Cover("404-405")
-		zzv.Assert(o.id == id404 || o.id == id405, "C11:unserved-request-not-404-405")
-		zzv.Assert(acao == "" && credHdr == "", "C11:allow-origin-on-404-or-405")
-	}
-	if preflight && served && !methodOK {
-		zzv.Cover("preflight-unserved-method")
-		zzv.Assert(acao == "", "C11:allow-origin-on-preflight-for-unserved-method")
-	}
-	if preflight && served && someOutside {
-		zzv.Cover("preflight-disallowed-header")
-		zzv.Assert(acao == "", "C11:allow-origin-on-preflight-with-disallowed-header")
-	}
+		zzv.Assert(acao == "" || (acao == "*;" && anyOrigin) || (acao == origin+";" && originListed && !anyOrigin), "C11:allow-origin-neither-star-nor-a-listed-origin")
+		zzv.Assert(credHdr == "" || (credHdr == "true;" && cred && acao == origin+";" && originListed), "C11:credentials-without-an-echoed-listed-origin")
+		if deny {
+			zzv.Cover("deny")
+			zzv.Assert(acao == "", "C11:allow-origin-without-configured-origins")
+		}
+		if !served {
+			zzv.Cover("404-405")
+			zzv.Assert(o.id == id404 || o.id == id405, "C11:unserved-request-not-404-405")
+			zzv.Assert(acao == "" && credHdr == "", "C11:allow-origin-on-404-or-405")
+		}
+		if preflight && served && !methodOK {
+			zzv.Cover("preflight-unserved-method")
+			zzv.Assert(acao == "", "C11:allow-origin-on-preflight-for-unserved-method")
+		}
+		if preflight && served && someOutside {
+			zzv.Cover("preflight-disallowed-header")
+			zzv.Assert(acao == "", "C11:allow-origin-on-preflight-with-disallowed-header")
+		}
 	}
 
 	// ---- C12: exactly what was configured, to allowed origins ----
